@@ -53,14 +53,19 @@ def load_known():
 
 
 def match_known(known, prop, v):
+    """An open known finding suppresses only violations whose clause AND
+    input signature match one of its recorded patterns."""
     for k in known:
-        if k.get("status") != "open" or k["property"] != prop:
+        if k.get("status") != "open":
             continue
-        if k.get("clause") and k["clause"] != v["clause"]:
-            continue
-        if k.get("detail_regex") and not re.search(k["detail_regex"], v["detail"]):
-            continue
-        return k
+        for m in k.get("match", []):
+            if m["property"] != prop or m["clause"] != v["clause"]:
+                continue
+            if m.get("sig") and m["sig"] != v.get("sig", ""):
+                continue
+            if m.get("detail_regex") and not re.search(m["detail_regex"], v["detail"]):
+                continue
+            return k
     return None
 
 
